@@ -1459,8 +1459,8 @@ def imported_cases():
     from . import c12
     for name, (xs, fn, pts) in c12.ROOT_TABLES.items():
         for kind in ("root", "minmax"):
-            for xl in pts[:8]:
-                for xh in pts[:8]:
+            for xl in pts[:10]:
+                for xh in pts[:10]:
                     out.append(("interp", {"table": name, "kind": kind, "xl": xl, "xh": xh}))
     for ys in ([-4, 5, 4, 6, 4], [4, 5, 4, 5, 4], [0.5 - 8, 0.5 - 1, 0.5, 1.5, 8.5], [14, 0, 0, 2, 18]):
         for kind in ("root", "minmax"):
@@ -1522,8 +1522,14 @@ def check_imported(item):
         try:
             it = Interpolation([float(x) for x in xs], [float(y) for y in ys])
             r = it.root(c["xl"], c["xh"]) if c["kind"] == "root" else it.minmax(c["xl"], c["xh"])
-        except ValueError:
-            return []                       # documented refusals (no sign change, equal limits, too many iterations)
+        except ValueError as ex:
+            # documented refusals: no sign change, equal limits.  A refusal of an interval on which the interpolant
+            # does change sign is an exception on in-domain arguments (judged with C12's exact polynomial)
+            if "table" in c:
+                missed = [m for site, m, _ in c12.check_root(c) if site == "missed"]
+                if missed:
+                    return ["in-domain call refused: " + missed[0]]
+            return []
         except Exception as ex:
             return ["Interpolation(%r, %r).%s(%r, %r) raised %s: %s" % (list(xs), ys, c["kind"], c["xl"], c["xh"],
                                                                       type(ex).__name__, ex)]
